@@ -1,5 +1,6 @@
 SPECIFICATION SwSpec
 CONSTANTS
+  Pre <- NoPre
   FailingGov = FALSE
   MaxHeight = 8
   MaxTx = 16
